@@ -221,4 +221,24 @@ def replay(ctx: Ctx, doc: dict) -> int:
     except Exception as ex:  # noqa: BLE001
         print(f"{kind} draws={plan} ranges={script.asked} raised {type(ex).__name__}: {ex}")
         return 1
+    # the property on this outcome: ranges, field fit, reconstruction by the peer's from-values constructor
+    why = None
+    if kind == "init":
+        why = check_init(s, plan)
+        rec, why = _reconstruct(lambda: m.InitSequenceStart.from_init_values(s.seq1, s.seq2), why)
+    elif kind == "ping":
+        if not 0 <= s.value < 1757:
+            why = f"value {s.value} outside 0..1756"
+        elif not (0 <= s.seq1 < 253 ** 2 and 0 <= s.seq2 < 253):
+            why = f"wire components seq1={s.seq1} seq2={s.seq2} do not fit a short and a char"
+        rec, why = _reconstruct(lambda: m.PingSequenceStart.from_ping_values(s.seq1, s.seq2), why)
+    else:
+        if not 0 <= s.value < 253:
+            why = f"value {s.value} does not fit a char"
+        rec, why = _reconstruct(lambda: m.AccountReplySequenceStart.from_value(s.value), why)
+    if why is None and rec != s.value:
+        why = f"from-values reconstruction gives {rec}, generated value is {s.value}"
+    if why:
+        print("  reproduced:", why)
+        return 1
     return 0
